@@ -42,86 +42,1408 @@ def ancestorOpens : List Node → Nat → List Tok
       | .elem t a m kids => Tok.op t a m :: ancestorOpens kids (pos - 1)
       | _ => []
 
+/-! ### Balance and depth -/
+
+theorem ancestorOpens_length_rec : ∀ (kids : List Node) (pos : Nat),
+    (ancestorOpens kids pos).length = depthAt kids pos
+  | [], pos => by simp [ancestorOpens, depthAt]
+  | n :: ns, pos => by
+    unfold ancestorOpens depthAt
+    split
+    · rfl
+    · split
+      · exact ancestorOpens_length_rec ns _
+      · cases n with
+        | elem t a m kids => simp [ancestorOpens_length_rec kids]; omega
+        | _ => simp
+
 theorem ancestorOpens_length (kids : List Node) (pos : Nat) :
-    (ancestorOpens kids pos).length = depthAt kids pos := by
-  sorry
+    (ancestorOpens kids pos).length = depthAt kids pos :=
+  ancestorOpens_length_rec kids pos
+
+@[simp] theorem balance_nil : balance [] = 0 := by simp [balance]
+@[simp] theorem balance_cons (x : Tok) (l : List Tok) : balance (x :: l) = x.delta + balance l := by
+  simp [balance]
+@[simp] theorem balance_append (a b : List Tok) : balance (a ++ b) = balance a + balance b := by
+  simp [balance]
+@[simp] theorem balance_units (s : List Nat) (m : Marks) : balance (s.map (Tok.unit · m)) = 0 := by
+  induction s with
+  | nil => simp
+  | cons c s ih => simp [ih, Tok.delta]
+theorem balance_take_units (s : List Nat) (m : Marks) (k : Nat) :
+    balance ((s.map (Tok.unit · m)).take k) = 0 := by
+  have := balance_units (s.take k) m
+  simpa [List.map_take] using this
+
+mutual
+theorem Node.balance_toks : ∀ n : Node, balance n.toks = 0
+  | .text s m => by simp
+  | .leaf t a m => by simp [Tok.delta]
+  | .elem t a m kids => by simp [Tok.delta, balance_ftoks_rec kids]
+theorem balance_ftoks_rec : ∀ l : List Node, balance (ftoks l) = 0
+  | [] => by simp
+  | n :: ns => by simp [Node.balance_toks n, balance_ftoks_rec ns]
+end
 
 /-- the token sequence of a node list is balanced -/
-theorem balance_ftoks (l : List Node) : balance (ftoks l) = 0 := by
-  sorry
+theorem balance_ftoks (l : List Node) : balance (ftoks l) = 0 :=
+  balance_ftoks_rec l
+
+mutual
+theorem Node.balance_prefix_nonneg : ∀ (n : Node) (k : Nat), 0 ≤ balance (n.toks.take k)
+  | .text s m, k => by rw [Node.toks_text, balance_take_units]; omega
+  | .leaf t a m, k => by
+    cases k
+    · simp
+    · simp [Tok.delta]
+  | .elem t a m kids, k => by
+    cases k with
+    | zero => simp
+    | succ k =>
+      simp only [Node.toks_elem, List.take_succ_cons, balance_cons, List.take_append, balance_append]
+      have := balance_prefix_nonneg_rec kids k
+      have h2 : -1 ≤ balance (List.take (k - (ftoks kids).length) [Tok.cl]) := by
+        cases (k - (ftoks kids).length) <;> simp [Tok.delta]
+      simp [Tok.delta]; omega
+theorem balance_prefix_nonneg_rec : ∀ (l : List Node) (k : Nat), 0 ≤ balance ((ftoks l).take k)
+  | [], k => by simp
+  | n :: ns, k => by
+    simp only [ftoks_cons, List.take_append, balance_append]
+    have := Node.balance_prefix_nonneg n k
+    have := balance_prefix_nonneg_rec ns (k - n.toks.length)
+    omega
+end
 
 /-- … and none of its prefixes closes more than it opened -/
-theorem balance_prefix_nonneg (l : List Node) (k : Nat) : 0 ≤ balance ((ftoks l).take k) := by
-  sorry
+theorem balance_prefix_nonneg (l : List Node) (k : Nat) : 0 ≤ balance ((ftoks l).take k) :=
+  balance_prefix_nonneg_rec l k
 
-/-- **Injectivity**: two normal-form child lists with the same token sequence are equal. -/
-theorem ftoks_inj (a b : List Node) (ha : fnorm a = true) (hb : fnorm b = true)
-    (h : ftoks a = ftoks b) : a = b := by
-  sorry
+@[simp] theorem depthAt_zero (l : List Node) : depthAt l 0 = 0 := by
+  cases l
+  · unfold depthAt; rfl
+  · unfold depthAt; simp
+@[simp] theorem ancestorOpens_zero (l : List Node) : ancestorOpens l 0 = [] := by
+  cases l
+  · unfold ancestorOpens; rfl
+  · unfold ancestorOpens; simp
+
+theorem depthAt_balance_rec : ∀ (kids : List Node) (pos : Nat), pos ≤ fsize kids →
+    (depthAt kids pos : Int) = balance ((ftoks kids).take pos)
+  | [], pos, h => by simp [depthAt]
+  | n :: ns, pos, h => by
+    unfold depthAt
+    simp only [ftoks_cons, List.take_append, balance_append, Node.toks_length]
+    split
+    · subst_vars; simp
+    · split
+      · rename_i h1 h2
+        rw [List.take_of_length_le (by simp [Node.toks_length]; omega), Node.balance_toks]
+        simp at h
+        rw [depthAt_balance_rec ns (pos - n.size) (by omega)]; simp
+      · rename_i h1 h2
+        have : pos - n.size = 0 := by omega
+        rw [this]
+        cases n with
+        | text s m => simp [balance_take_units]
+        | leaf t a m => simp at h2; omega
+        | elem t a m kids =>
+          simp at h2
+          obtain ⟨p, rfl⟩ : ∃ p, pos = p + 1 := ⟨pos - 1, by omega⟩
+          simp only [Node.toks_elem, List.take_succ_cons, balance_cons, List.take_append, balance_append]
+          have : p - (ftoks kids).length = 0 := by rw [ftoks_length]; omega
+          rw [this]
+          have := depthAt_balance_rec kids p (by omega)
+          simp [Tok.delta]; omega
 
 /-- **Depth = unmatched opens** before the position. -/
 theorem depthAt_balance (kids : List Node) (pos : Nat) (h : pos ≤ fsize kids) :
-    (depthAt kids pos : Int) = balance ((ftoks kids).take pos) := by
-  sorry
+    (depthAt kids pos : Int) = balance ((ftoks kids).take pos) :=
+  depthAt_balance_rec kids pos h
 
-/-- **Tokens of a cut**: `Fragment.cut(from, to)` returns the tokens in the range, padded on the left
-    with the open tokens of the nodes `from` is inside and on the right with the closes of the nodes
-    `to` is inside. -/
+/-! ### Injectivity of `ftoks` on normal forms -/
+
+/-- a list of tokens that can follow a complete child list: empty or starting with a close -/
+def termOk : List Tok → Bool
+  | [] => true
+  | .cl :: _ => true
+  | _ => false
+
+def startsUnit (m : Marks) : List Tok → Bool
+  | .unit _ m' :: _ => m == m'
+  | _ => false
+
+theorem chainOk_tail {n : Node} {ns : List Node} (h : chainOk (n :: ns) = true) : chainOk ns = true := by
+  cases ns with
+  | nil => simp [chainOk]
+  | cons b r => simp [chainOk] at h; exact h.2
+
+theorem units_inj (m : Marks) : ∀ (s s' : List Nat) (X X' : List Tok),
+    startsUnit m X = false → startsUnit m X' = false →
+    s.map (Tok.unit · m) ++ X = s'.map (Tok.unit · m) ++ X' → s = s' ∧ X = X'
+  | [], [], X, X', _, _, h => by simpa using h
+  | [], c :: s', X, X', hX, _, h => by
+    simp at h; subst h; simp [startsUnit] at hX
+  | c :: s, [], X, X', _, hX', h => by
+    simp at h; subst h; simp [startsUnit] at hX'
+  | c :: s, c' :: s', X, X', hX, hX', h => by
+    simp at h
+    obtain ⟨rfl, h⟩ := h
+    have := units_inj m s s' X X' hX hX' (by simpa using h)
+    simp [this.1, this.2]
+
+/-- after a text node with marks `m` in a normal-form list, the remaining tokens do not start with
+    a unit token carrying `m` -/
+theorem startsUnit_after (s : List Nat) (m : Marks) (ns : List Node) (r : List Tok)
+    (hc : chainOk (.text s m :: ns) = true) (hn : fnormKids ns = true) (hr : termOk r = true) :
+    startsUnit m (ftoks ns ++ r) = false := by
+  cases ns with
+  | nil =>
+    cases r with
+    | nil => simp [startsUnit]
+    | cons x xs => cases x <;> simp_all [startsUnit, termOk]
+  | cons b bs =>
+    cases b with
+    | text s' m' =>
+      simp [chainOk, adjOk, fnormKids, Node.norm] at hc hn
+      cases s' with
+      | nil => simp at hn
+      | cons c s' => simp [startsUnit, hc.1]
+    | leaf t a m' => simp [startsUnit]
+    | elem t a m' k => simp [startsUnit]
+
+theorem ftoks_inj_aux : ∀ (a b : List Node) (r r' : List Tok),
+    fnormKids a = true → chainOk a = true → fnormKids b = true → chainOk b = true →
+    termOk r = true → termOk r' = true → ftoks a ++ r = ftoks b ++ r' → a = b ∧ r = r'
+  | [], [], r, r', _, _, _, _, _, _, h => by simpa using h
+  | [], n' :: ns', r, r', _, _, hb, _, hr, _, h => by
+    exfalso
+    cases n' with
+    | text s m =>
+      cases s with
+      | nil => simp [fnormKids, Node.norm] at hb
+      | cons c s => simp at h; subst h; simp [termOk] at hr
+    | leaf t a m => simp at h; subst h; simp [termOk] at hr
+    | elem t a m k => simp at h; subst h; simp [termOk] at hr
+  | n :: ns, [], r, r', ha, _, _, _, _, hr', h => by
+    exfalso
+    cases n with
+    | text s m =>
+      cases s with
+      | nil => simp [fnormKids, Node.norm] at ha
+      | cons c s => simp at h; subst h; simp [termOk] at hr'
+    | leaf t a m => simp at h; subst h; simp [termOk] at hr'
+    | elem t a m k => simp at h; subst h; simp [termOk] at hr'
+  | n :: ns, n' :: ns', r, r', ha, hca, hb, hcb, hr, hr', h => by
+    have hca' := chainOk_tail hca
+    have hcb' := chainOk_tail hcb
+    simp only [fnormKids, Bool.and_eq_true] at ha hb
+    cases n with
+    | text s m =>
+      cases n' with
+      | text s' m' =>
+        have hm : m = m' := by
+          cases s with
+          | nil => simp [Node.norm] at ha
+          | cons c s =>
+            cases s' with
+            | nil => simp [Node.norm] at hb
+            | cons c' s' => simp at h; exact h.1.2
+        subst hm
+        simp only [ftoks_cons, Node.toks_text, List.append_assoc] at h
+        have h1 := startsUnit_after s m ns r hca ha.2 hr
+        have h2 := startsUnit_after s' m ns' r' hcb hb.2 hr'
+        obtain ⟨rfl, h3⟩ := units_inj m s s' _ _ h1 h2 h
+        have := ftoks_inj_aux ns ns' r r' ha.2 hca' hb.2 hcb' hr hr' h3
+        simp [this.1, this.2]
+      | leaf t a m' =>
+        exfalso
+        cases s with
+        | nil => simp [Node.norm] at ha
+        | cons c s => simp at h
+      | elem t a m' k =>
+        exfalso
+        cases s with
+        | nil => simp [Node.norm] at ha
+        | cons c s => simp at h
+    | leaf t a m =>
+      cases n' with
+      | text s' m' =>
+        exfalso
+        cases s' with
+        | nil => simp [Node.norm] at hb
+        | cons c s => simp at h
+      | leaf t' a' m' =>
+        simp at h
+        obtain ⟨⟨rfl, rfl, rfl⟩, h⟩ := h
+        have := ftoks_inj_aux ns ns' r r' ha.2 hca' hb.2 hcb' hr hr' h
+        simp [this.1, this.2]
+      | elem t' a' m' k => simp at h
+    | elem t a m k =>
+      cases n' with
+      | text s' m' =>
+        exfalso
+        cases s' with
+        | nil => simp [Node.norm] at hb
+        | cons c s => simp at h
+      | leaf t' a' m' => simp at h
+      | elem t' a' m' k' =>
+        simp at h
+        obtain ⟨⟨rfl, rfl, rfl⟩, h⟩ := h
+        simp only [Node.norm, Bool.and_eq_true] at ha hb
+        have h1 := ftoks_inj_aux k k' (Tok.cl :: (ftoks ns ++ r)) (Tok.cl :: (ftoks ns' ++ r'))
+          ha.1.1 ha.1.2 hb.1.1 hb.1.2 (by simp [termOk]) (by simp [termOk]) h
+        obtain ⟨rfl, h2⟩ := h1
+        simp at h2
+        have := ftoks_inj_aux ns ns' r r' ha.2 hca' hb.2 hcb' hr hr' h2
+        simp [this.1, this.2]
+
+theorem ftoks_inj (a b : List Node) (ha : fnorm a = true) (hb : fnorm b = true)
+    (h : ftoks a = ftoks b) : a = b := by
+  simp only [fnorm, Bool.and_eq_true] at ha hb
+  exact (ftoks_inj_aux a b [] [] ha.1 ha.2 hb.1 hb.2 rfl rfl (by simpa using h)).1
+
+/-! ### Normal form: append / from_array -/
+
+theorem fnormKids_append (a b : List Node) : fnormKids (a ++ b) = (fnormKids a && fnormKids b) := by
+  induction a with
+  | nil => simp [fnormKids]
+  | cons n ns ih => simp [fnormKids, ih, Bool.and_assoc]
+
+/-- adjacency condition at the seam of two lists -/
+def seamOk : Option Node → Option Node → Bool
+  | some u, some v => adjOk u v
+  | _, _ => true
+
+theorem chainOk_cons (n : Node) (ns : List Node) :
+    chainOk (n :: ns) = (seamOk (some n) ns.head? && chainOk ns) := by
+  cases ns <;> simp [chainOk, seamOk]
+
+theorem chainOk_append : ∀ (a b : List Node),
+    chainOk (a ++ b) = (chainOk a && chainOk b && seamOk a.getLast? b.head?)
+  | [], b => by simp [chainOk, seamOk]
+  | [n], b => by
+    simp only [List.singleton_append, List.getLast?_singleton]
+    rw [chainOk_cons]; simp [chainOk, Bool.and_comm]
+  | n :: n' :: ns, b => by
+    have ih := chainOk_append (n' :: ns) b
+    simp only [List.cons_append] at ih ⊢
+    simp only [chainOk, ih, List.getLast?_cons_cons, Bool.and_assoc]
+
+/-- `n'` behaves like `n` with respect to adjacency -/
+def sameKind (n n' : Node) : Prop := (∀ x, adjOk x n' = adjOk x n) ∧ (∀ y, adjOk n' y = adjOk n y)
+
+theorem sameKind_refl (n : Node) : sameKind n n := ⟨fun _ => rfl, fun _ => rfl⟩
+theorem sameKind_text (s s' : List Nat) (m : Marks) : sameKind (.text s m) (.text s' m) :=
+  ⟨fun x => by cases x <;> simp [adjOk], fun y => by cases y <;> simp [adjOk]⟩
+
+theorem seamOk_sameKind_right {n n' : Node} (h : sameKind n n') (u : Option Node) :
+    seamOk u (some n') = seamOk u (some n) := by
+  cases u <;> simp [seamOk, h.1]
+theorem seamOk_sameKind_left {n n' : Node} (h : sameKind n n') (v : Option Node) :
+    seamOk (some n') v = seamOk (some n) v := by
+  cases v <;> simp [seamOk, h.2]
+
+/-- shape of `addNode`: appends a node of the same kind as `child`, possibly absorbing the last node -/
+theorem addNode_spec (target : List Node) (child : Node)
+    (ht : fnormKids target = true) (hc : chainOk target = true) (hn : child.norm = true) :
+    ∃ c', sameKind child c' ∧ (addNode target child).getLast? = some c' ∧
+      fnormKids (addNode target child) = true ∧ chainOk (addNode target child) = true := by
+  unfold addNode
+  split
+  · rename_i s m s' m' h
+    split
+    · rename_i hm
+      subst hm
+      have hne : target ≠ [] := by intro h0; subst h0; simp at h
+      have h2 := List.dropLast_concat_getLast hne
+      rw [List.getLast?_eq_some_getLast hne] at h
+      simp at h
+      rw [h] at h2
+      rw [← h2, fnormKids_append] at ht
+      rw [← h2, chainOk_append] at hc
+      refine ⟨.text (s ++ s') m, sameKind_text _ _ _, by simp, ?_, ?_⟩
+      · rw [fnormKids_append]
+        simp [fnormKids, Node.norm] at ht hn ⊢
+        exact ⟨ht.1, by intro h; simp_all⟩
+      · rw [chainOk_append]
+        simp only [Bool.and_eq_true] at hc ⊢
+        refine ⟨⟨hc.1.1, by simp [chainOk]⟩, ?_⟩
+        simp only [List.head?_cons] at hc ⊢
+        rw [seamOk_sameKind_right (sameKind_text s (s ++ s') m)]; exact hc.2
+    · rename_i hm
+      refine ⟨.text s' m', sameKind_refl _, by simp, ?_, ?_⟩
+      · rw [fnormKids_append]; simp [fnormKids, ht, hn]
+      · rw [chainOk_append]; simp [hc, chainOk, h, seamOk, adjOk]
+        simpa using hm
+  · rename_i child _ _ h
+    refine ⟨child, sameKind_refl _, by simp, ?_, ?_⟩
+    · rw [fnormKids_append]; simp [fnormKids, ht, hn]
+    · rw [chainOk_append]; simp [hc, chainOk]
+      cases hl : target.getLast? with
+      | none => simp [seamOk]
+      | some u =>
+        simp only [seamOk]
+        cases u <;> cases child <;> simp [adjOk]
+        rename_i s m s' m'
+        exact (h s m s' m' hl rfl).elim
+
+theorem addNodes_norm (t cs : List Node) (ht : fnormKids t = true) (hc : chainOk t = true)
+    (hcs : fnormKids cs = true) : fnormKids (addNodes t cs) = true ∧ chainOk (addNodes t cs) = true := by
+  induction cs generalizing t with
+  | nil => simp [addNodes, ht, hc]
+  | cons c cs ih =>
+    simp only [fnormKids, Bool.and_eq_true] at hcs
+    obtain ⟨c', _, _, h1, h2⟩ := addNode_spec t c ht hc hcs.1
+    simp only [addNodes, List.foldl_cons] at ih ⊢
+    exact ih _ h1 h2 hcs.2
+
+theorem fromArray_norm (l : List Node) (h : fnormKids l = true) : fnorm (fromArray l) = true := by
+  have := addNodes_norm [] l (by simp [fnormKids]) (by simp [chainOk]) h
+  simp [fnorm, fromArray, this.1, this.2]
+
+theorem fappend_norm (a b : List Node) (ha : fnorm a = true) (hb : fnorm b = true) :
+    fnorm (fappend a b) = true := by
+  unfold fappend
+  cases b with
+  | nil => exact ha
+  | cons c rest =>
+    simp only
+    split
+    · exact hb
+    · simp only [fnorm, Bool.and_eq_true] at ha hb ⊢
+      have hb1 := hb.1
+      simp only [fnormKids, Bool.and_eq_true] at hb1
+      obtain ⟨c', hk, hl, h1, h2⟩ := addNode_spec a c ha.1 ha.2 hb1.1
+      rw [fnormKids_append, chainOk_append, hl]
+      have hb2 := hb.2
+      rw [chainOk_cons] at hb2
+      simp only [Bool.and_eq_true] at hb2
+      rw [seamOk_sameKind_left hk]
+      simp [h1, h2, hb1.2, hb2.1, hb2.2]
+
+/-! ### Tokens of a cut -/
+
+theorem depthAt_fsize (l : List Node) : depthAt l (fsize l) = 0 := by
+  have := depthAt_balance l (fsize l) (Nat.le_refl _)
+  rw [List.take_of_length_le (by rw [ftoks_length]; omega), balance_ftoks] at this
+  exact_mod_cast this
+
+theorem ancestorOpens_fsize (l : List Node) : ancestorOpens l (fsize l) = [] := by
+  apply List.eq_nil_of_length_eq_zero
+  rw [ancestorOpens_length, depthAt_fsize]
+
+theorem fcutLoop_zero (l : List Node) (f : Nat) : fcutLoop l f 0 = .ok [] := by
+  cases l <;> simp [fcutLoop]
+
+theorem cutText_ok {s s' : List Nat} {f t : Nat} (h : cutText s f t = .ok s') :
+    s' = (s.take t).drop f ∧ (s ≠ [] → s' ≠ []) := by
+  unfold cutText at h
+  split at h
+  · rename_i h1
+    simp at h1 h
+    obtain ⟨rfl, rfl⟩ := h1
+    subst h; simp
+  · split at h
+    · simp at h
+    · simp only at h
+      split at h
+      · simp at h
+      · rename_i h3
+        simp at h; subst h
+        simp at h3
+        refine ⟨rfl, fun _ => ?_⟩
+        intro h0
+        have := congrArg List.length h0
+        simp at this; omega
+
+/-- the statement of `fcutLoop_toks` for one child list (used as induction hypothesis) -/
+def CutToksSpec (kids : List Node) : Prop :=
+  ∀ (f t : Nat) (c : List Node), (f < t ∨ (f = 0 ∧ t = 0)) → t ≤ fsize kids →
+    fcutLoop kids f t = .ok c →
+    ftoks c = ancestorOpens kids f ++ ((ftoks kids).drop f).take (t - f)
+                ++ List.replicate (depthAt kids t) Tok.cl
+
+theorem replicate_snoc (d : Nat) (x : Tok) : List.replicate d x ++ [x] = List.replicate (d + 1) x := by
+  rw [List.replicate_succ']
+
+theorem depthAt_cons (n : Node) (ns : List Node) (pos : Nat) :
+    depthAt (n :: ns) pos =
+      if pos = 0 then 0
+      else if n.size ≤ pos then depthAt ns (pos - n.size)
+      else match n with
+        | .elem _ _ _ kids => 1 + depthAt kids (pos - 1)
+        | _ => 0 := by
+  conv => lhs; unfold depthAt
+  split
+  · rfl
+  · split
+    · rfl
+    · cases n <;> rfl
+
+theorem ancestorOpens_cons (n : Node) (ns : List Node) (pos : Nat) :
+    ancestorOpens (n :: ns) pos =
+      if pos = 0 then []
+      else if n.size ≤ pos then ancestorOpens ns (pos - n.size)
+      else match n with
+        | .elem t a m kids => Tok.op t a m :: ancestorOpens kids (pos - 1)
+        | _ => [] := by
+  conv => lhs; unfold ancestorOpens
+
+theorem ancestorOpens_elem_cons (t : TypeId) (a : Attrs) (m : Marks) (kids ns : List Node) (f : Nat)
+    (h0 : 0 < f) (h1 : f < 2 + fsize kids) :
+    ancestorOpens (.elem t a m kids :: ns) f = Tok.op t a m :: ancestorOpens kids (f - 1) := by
+  rw [ancestorOpens_cons, if_neg (by omega), if_neg (by simp; omega)]
+
+theorem depthAt_elem_cons (t : TypeId) (a : Attrs) (m : Marks) (kids ns : List Node) (f : Nat)
+    (h0 : 0 < f) (h1 : f < 2 + fsize kids) :
+    depthAt (.elem t a m kids :: ns) f = 1 + depthAt kids (f - 1) := by
+  rw [depthAt_cons, if_neg (by omega), if_neg (by simp; omega)]
+
+theorem depthAt_skip (n : Node) (ns : List Node) (t : Nat) (h : n.size ≤ t) :
+    depthAt (n :: ns) t = depthAt ns (t - n.size) := by
+  rw [depthAt_cons]
+  split
+  · subst_vars; simp
+  · rfl
+
+theorem ancestorOpens_skip (n : Node) (ns : List Node) (t : Nat) (h : n.size ≤ t) :
+    ancestorOpens (n :: ns) t = ancestorOpens ns (t - n.size) := by
+  rw [ancestorOpens_cons]
+  split
+  · subst_vars; simp
+  · rfl
+
+theorem cutElem_inner (ty : TypeId) (a : Attrs) (m : Marks) (kids : List Node) (IH : CutToksSpec kids)
+    (f2 t2 : Nat) (c : Node) (hle : f2 ≤ t2) (ht2 : t2 ≤ fsize kids)
+    (hdeg : f2 = t2 → f2 = 0 ∨ f2 = fsize kids)
+    (h : Node.cut (.elem ty a m kids) f2 t2 = .ok c) :
+    c.toks = Tok.op ty a m :: (ancestorOpens kids f2 ++ ((ftoks kids).drop f2).take (t2 - f2)
+      ++ List.replicate (depthAt kids t2) Tok.cl ++ [Tok.cl]) := by
+  have hK := ftoks_length kids
+  rw [Node.cut] at h
+  split at h
+  · rename_i h1
+    simp at h1 h
+    obtain ⟨rfl, rfl⟩ := h1
+    subst h
+    simp [depthAt_fsize]
+    rw [List.take_of_length_le (by omega)]
+  · split at h
+    · rename_i h1 h2
+      simp at h; subst h
+      have : f2 = t2 := by omega
+      subst this
+      rcases hdeg rfl with rfl | rfl
+      · simp
+      · simp [depthAt_fsize, ancestorOpens_fsize]
+    · rename_i h1 h2
+      cases hc : fcutLoop kids f2 t2 with
+      | error e => simp [hc, Except.map] at h
+      | ok c' =>
+        simp [hc, Except.map] at h
+        subst h
+        have := IH f2 t2 c' (by omega) ht2 hc
+        simp [this]
+
+/-- tokens of the cut of an element child, in the coordinates of the enclosing list -/
+theorem cutElem_toks (ty : TypeId) (a : Attrs) (m : Marks) (kids ns : List Node) (IH : CutToksSpec kids)
+    (f t : Nat) (c : Node) (hf : f < 2 + fsize kids) (hft : f < t) (hcut : 0 < f ∨ t < 2 + fsize kids)
+    (h : Node.cut (.elem ty a m kids) (f - 1) (min (fsize kids) (t - 1)) = .ok c) :
+    c.toks = ancestorOpens (.elem ty a m kids :: ns) f
+      ++ ((Node.elem ty a m kids).toks.drop f).take (t - f)
+      ++ List.replicate (if t < 2 + fsize kids then depthAt (.elem ty a m kids :: ns) t else 0) Tok.cl := by
+  have hK := ftoks_length kids
+  have h1 := cutElem_inner ty a m kids IH _ _ c (by omega) (by omega) (by omega) h
+  rw [h1]
+  obtain ⟨t', rfl⟩ : ∃ t', t = t' + 1 := ⟨t - 1, by omega⟩
+  rcases Nat.eq_zero_or_pos f with rfl | hf0
+  · have ht : t' + 1 < 2 + fsize kids := by omega
+    have hm : min (fsize kids) (t' + 1 - 1) = t' := by omega
+    rw [if_pos ht, depthAt_elem_cons _ _ _ _ _ _ (by omega) (by omega), hm]
+    simp
+    rw [List.take_append_of_le_length (by omega), replicate_snoc]
+    simp [Nat.add_comm]
+  · obtain ⟨f', rfl⟩ : ∃ f', f = f' + 1 := ⟨f - 1, by omega⟩
+    rw [ancestorOpens_elem_cons _ _ _ _ _ _ (by omega) (by omega)]
+    by_cases ht : t' + 1 < 2 + fsize kids
+    · have hm : min (fsize kids) (t' + 1 - 1) = t' := by omega
+      rw [if_pos ht, depthAt_elem_cons _ _ _ _ _ _ (by omega) (by omega), hm]
+      simp
+      rw [List.drop_append_of_le_length (by omega), List.take_append_of_le_length (by simp [hK]; omega),
+        replicate_snoc]
+      simp [Nat.add_comm]
+    · have hm : min (fsize kids) (t' + 1 - 1) = fsize kids := by omega
+      rw [if_neg ht, hm]
+      simp [depthAt_fsize]
+      rw [List.drop_append_of_le_length (by omega), List.take_of_length_le (by simp [hK]),
+        List.take_of_length_le (by simp [hK]; omega)]
+
+/-- putting the cut head piece and the cut of the tail together -/
+theorem cut_assemble (n : Node) (ns : List Node) (f t : Nat) (hd : Node) (rest : List Node)
+    (hf : f < n.size) (hft : f < t)
+    (hhd : hd.toks = ancestorOpens (n :: ns) f ++ (n.toks.drop f).take (t - f)
+      ++ List.replicate (if t < n.size then depthAt (n :: ns) t else 0) Tok.cl)
+    (hrest : ftoks rest = (ftoks ns).take (t - n.size) ++ List.replicate (depthAt ns (t - n.size)) Tok.cl) :
+    ftoks (hd :: rest) = ancestorOpens (n :: ns) f ++ ((ftoks (n :: ns)).drop f).take (t - f)
+      ++ List.replicate (depthAt (n :: ns) t) Tok.cl := by
+  have hT := Node.toks_length n
+  rw [ftoks_cons, ftoks_cons, hhd, hrest]
+  rw [List.drop_append_of_le_length (by omega)]
+  by_cases ht : t < n.size
+  · rw [if_pos ht]
+    have : t - n.size = 0 := by omega
+    rw [this, List.take_append_of_le_length (by simp [hT]; omega)]
+    simp
+  · rw [if_neg ht, depthAt_skip n ns t (by omega)]
+    have : t - f - (List.drop f n.toks).length = t - n.size := by simp [hT]; omega
+    rw [List.take_append, List.take_of_length_le (by simp [hT]; omega), this]
+    simp
+
+theorem fcutLoop_toks : ∀ kids : List Node, CutToksSpec kids
+  | [], f, t, c, hft, ht, h => by
+    simp at ht; subst ht
+    simp [fcutLoop] at h; subst h; simp [ancestorOpens]
+  | n :: ns, f, t, c, hft, ht, h => by
+    have IHns := fcutLoop_toks ns
+    have hT := Node.toks_length n
+    by_cases ht0 : t = 0
+    · subst ht0
+      have : f = 0 := by omega
+      subst this
+      rw [fcutLoop_zero] at h
+      simp at h; subst h; simp
+    have hft : f < t := by omega
+    rw [fcutLoop] at h
+    simp only [if_neg ht0] at h
+    simp only [fsize_cons] at ht
+    split at h
+    · rename_i hfsz
+      -- the tail: cut from offset 0
+      have tailSpec : ∀ rest, fcutLoop ns (f - n.size) (t - n.size) = .ok rest →
+          ftoks rest = (ftoks ns).take (t - n.size)
+            ++ List.replicate (depthAt ns (t - n.size)) Tok.cl := by
+        intro rest hr
+        have h0 : f - n.size = 0 := by omega
+        rw [h0] at hr
+        have := IHns 0 (t - n.size) rest (by omega) (by omega) hr
+        simpa using this
+      split at h
+      · rename_i hcut
+        cases n with
+        | text s m =>
+          simp only at h
+          cases hct : cutText s f (min s.length t) with
+          | error e => simp [hct] at h
+          | ok s' =>
+            cases hr : fcutLoop ns (f - s.length) (t - s.length) with
+            | error e => simp [hct, hr] at h
+            | ok rest =>
+              simp [hct, hr] at h
+              subst h
+              refine cut_assemble _ ns f t _ rest hfsz hft ?_ (tailSpec rest (by simpa using hr))
+              have hs := (cutText_ok hct).1
+              subst hs
+              have hao : ancestorOpens (Node.text s m :: ns) f = [] := by
+                rw [ancestorOpens_cons]; split
+                · rfl
+                · rw [if_neg (by omega)]
+              have hd : (if t < (Node.text s m).size then depthAt (Node.text s m :: ns) t else 0) = 0 := by
+                split
+                · rw [depthAt_cons, if_neg ht0, if_neg (by omega)]
+                · rfl
+              rw [hao, hd]
+              simp only [Node.toks_text, List.map_drop, List.map_take, List.replicate_zero,
+                List.append_nil, List.nil_append, List.drop_take]
+              simp at hfsz
+              rcases Nat.le_total t s.length with hl | hl
+              · rw [Nat.min_eq_right hl]
+              · rw [Nat.min_eq_left hl, List.take_of_length_le (by simp), List.take_of_length_le (by simp; omega)]
+        | leaf ty a m =>
+          simp at hfsz hcut; omega
+        | elem ty a m kids =>
+          simp only at h
+          cases hct : Node.cut (.elem ty a m kids) (f - 1) (min (fsize kids) (t - 1)) with
+          | error e => simp [hct] at h
+          | ok hd =>
+            cases hr : fcutLoop ns (f - (2 + fsize kids)) (t - (2 + fsize kids)) with
+            | error e => simp [hct, hr] at h
+            | ok rest =>
+              simp [hct, hr] at h
+              subst h
+              simp at hfsz hcut
+              refine cut_assemble _ ns f t _ rest (by simpa using hfsz) hft ?_ (tailSpec rest (by simpa using hr))
+              have := cutElem_toks ty a m kids ns (fcutLoop_toks kids) f t hd hfsz hft hcut hct
+              simpa using this
+      · rename_i hcut
+        cases hr : fcutLoop ns (f - n.size) (t - n.size) with
+        | error e => simp [hr] at h
+        | ok rest =>
+          simp [hr] at h
+          subst h
+          simp at hcut
+          have hf0 : f = 0 := by omega
+          subst hf0
+          refine cut_assemble n ns 0 t n rest hfsz hft ?_ (tailSpec rest hr)
+          rw [if_neg (by omega)]
+          simp
+          rw [List.take_of_length_le (by omega)]
+    · rename_i hfsz
+      have := IHns (f - n.size) (t - n.size) c (by omega) (by omega) h
+      rw [this, ancestorOpens_skip n ns f (by omega), depthAt_skip n ns t (by omega), ftoks_cons,
+        List.drop_append, List.drop_eq_nil_of_le (as := n.toks) (by omega), hT]
+      have : t - n.size - (f - n.size) = t - f := by omega
+      rw [this]; simp
+
 theorem fcut_toks (kids c : List Node) (f t : Nat) (hft : f < t) (ht : t ≤ fsize kids)
     (h : fcut kids f t = .ok c) :
     ftoks c = ancestorOpens kids f ++ ((ftoks kids).drop f).take (t - f)
                 ++ List.replicate (depthAt kids t) Tok.cl := by
-  sorry
+  unfold fcut at h
+  split at h
+  · rename_i h1
+    simp at h1 h
+    obtain ⟨rfl, rfl⟩ := h1
+    subst h
+    simp [depthAt_fsize]
+    rw [List.take_of_length_le (by rw [ftoks_length]; omega)]
+  · rw [if_neg (by omega)] at h
+    exact fcutLoop_toks kids f t c (Or.inl hft) ht h
 
-/-- a cut at pair-aligned, in-range offsets succeeds -/
+/-! ### totality of cut -/
+
+theorem alignedAt_cons (n : Node) (ns : List Node) (pos : Nat) :
+    alignedAt (n :: ns) pos =
+      if pos = 0 then true
+      else if n.size ≤ pos then alignedAt ns (pos - n.size)
+      else match n with
+        | .text s _ => splitOk s pos
+        | .elem _ _ _ kids => alignedAt kids (pos - 1)
+        | .leaf .. => true := by
+  conv => lhs; unfold alignedAt
+
+@[simp] theorem alignedAt_zero (l : List Node) : alignedAt l 0 = true := by
+  cases l
+  · unfold alignedAt; rfl
+  · rw [alignedAt_cons]; simp
+
+theorem alignedAt_fsize : ∀ l : List Node, alignedAt l (fsize l) = true
+  | [] => by simp
+  | n :: ns => by
+    rw [alignedAt_cons]
+    split
+    · rfl
+    · rw [if_pos (by simp)]
+      simp [alignedAt_fsize ns]
+
+theorem splitOk_zero (s : List Nat) : splitOk s 0 = true := by simp [splitOk]
+theorem splitOk_length (s : List Nat) : splitOk s s.length = true := by
+  unfold splitOk
+  split
+  · rfl
+  · rename_i k hk
+    have : s[k + 1]? = none := by simp; omega
+    simp [this]
+
+theorem cutText_total (s : List Nat) (f t : Nat) (hft : f < t) (ht : t ≤ s.length)
+    (hf : splitOk s f = true) (hts : splitOk s t = true) : ∃ s', cutText s f t = .ok s' := by
+  unfold cutText
+  split
+  · exact ⟨_, rfl⟩
+  · rw [if_neg (by simp [hf, hts])]
+    simp only
+    split
+    · rename_i h
+      have := congrArg List.length (List.isEmpty_iff.mp h)
+      simp at this; omega
+    · exact ⟨_, rfl⟩
+
+def CutTotalSpec (kids : List Node) : Prop :=
+  ∀ (f t : Nat), (f < t ∨ (f = 0 ∧ t = 0)) → t ≤ fsize kids →
+    alignedAt kids f = true → alignedAt kids t = true → ∃ c, fcutLoop kids f t = .ok c
+
+theorem fcutLoop_total : ∀ kids : List Node, CutTotalSpec kids
+  | [], f, t, hft, ht, _, _ => by
+    simp at ht; subst ht
+    exact ⟨[], by simp [fcutLoop]⟩
+  | n :: ns, f, t, hft, ht, haf, hat => by
+    have IHns := fcutLoop_total ns
+    by_cases ht0 : t = 0
+    · subst ht0; exact ⟨[], fcutLoop_zero _ _⟩
+    have hft : f < t := by omega
+    simp only [fsize_cons] at ht
+    rw [fcutLoop, if_neg ht0]
+    simp only
+    -- alignment of the tail offsets
+    have hat' : alignedAt ns (t - n.size) = true := by
+      by_cases h : n.size ≤ t
+      · rw [alignedAt_cons, if_neg ht0, if_pos h] at hat; exact hat
+      · have : t - n.size = 0 := by omega
+        rw [this]; simp
+    split
+    · rename_i hfsz
+      have h0 : f - n.size = 0 := by omega
+      rw [h0]
+      obtain ⟨rest, hrest⟩ := IHns 0 (t - n.size) (by omega) (by omega) (by simp) hat'
+      rw [hrest]
+      split
+      · rename_i hcut
+        cases n with
+        | text s m =>
+          simp only
+          simp at hfsz
+          have hf' : splitOk s f = true := by
+            by_cases hf0 : f = 0
+            · subst hf0; exact splitOk_zero s
+            · rw [alignedAt_cons, if_neg hf0, if_neg (by simp; omega)] at haf; exact haf
+          have ht' : splitOk s (min s.length t) = true := by
+            by_cases hl : s.length ≤ t
+            · rw [Nat.min_eq_left hl]; exact splitOk_length s
+            · rw [Nat.min_eq_right (by omega)]
+              rw [alignedAt_cons, if_neg ht0, if_neg (by simp; omega)] at hat; exact hat
+          obtain ⟨s', hs'⟩ := cutText_total s f (min s.length t) (by omega) (by omega) hf' ht'
+          rw [hs']; exact ⟨_, rfl⟩
+        | leaf ty a m => exact ⟨_, rfl⟩
+        | elem ty a m kids =>
+          simp only
+          simp at hfsz hcut
+          have : ∃ c, Node.cut (.elem ty a m kids) (f - 1) (min (fsize kids) (t - 1)) = .ok c := by
+            rw [Node.cut]
+            split
+            · exact ⟨_, rfl⟩
+            · split
+              · exact ⟨_, rfl⟩
+              · rename_i h1 h2
+                have haf' : alignedAt kids (f - 1) = true := by
+                  by_cases hf0 : f = 0
+                  · subst hf0; simp
+                  · rw [alignedAt_cons, if_neg hf0, if_neg (by simp; omega)] at haf; exact haf
+                have hat'' : alignedAt kids (min (fsize kids) (t - 1)) = true := by
+                  by_cases hl : fsize kids ≤ t - 1
+                  · rw [Nat.min_eq_left hl]; exact alignedAt_fsize kids
+                  · rw [Nat.min_eq_right (by omega)]
+                    rw [alignedAt_cons, if_neg ht0, if_neg (by simp; omega)] at hat; exact hat
+                obtain ⟨c', hc'⟩ := fcutLoop_total kids (f - 1) (min (fsize kids) (t - 1))
+                  (by omega) (by omega) haf' hat''
+                rw [hc']; exact ⟨_, rfl⟩
+          obtain ⟨c, hc⟩ := this
+          rw [hc]; exact ⟨_, rfl⟩
+      · exact ⟨_, rfl⟩
+    · rename_i hfsz
+      have haf' : alignedAt ns (f - n.size) = true := by
+        by_cases hf0 : f = 0
+        · subst hf0; simp
+        · rw [alignedAt_cons, if_neg hf0, if_pos (by omega)] at haf; exact haf
+      exact IHns (f - n.size) (t - n.size) (by omega) (by omega) haf' hat'
+
+set_option linter.unusedVariables false in
 theorem fcut_total (kids : List Node) (f t : Nat) (hft : f ≤ t) (ht : t ≤ fsize kids)
     (hf : alignedAt kids f = true) (hta : alignedAt kids t = true) (hn : fnorm kids = true) :
     ∃ c, fcut kids f t = .ok c := by
-  sorry
+  unfold fcut
+  split
+  · exact ⟨_, rfl⟩
+  · split
+    · exact ⟨_, rfl⟩
+    · exact fcutLoop_total kids f t (by omega) ht hf hta
 
-/-- cutting preserves normal form -/
+/-! ### Cutting preserves normal form -/
+
+theorem sameKind_elem (t : TypeId) (a : Attrs) (m : Marks) (k k' : List Node) :
+    sameKind (.elem t a m k) (.elem t a m k') :=
+  ⟨fun x => by cases x <;> simp [adjOk], fun y => by cases y <;> simp [adjOk]⟩
+
+theorem chainOk_cons_sameKind {n n' : Node} (h : sameKind n n') (l : List Node) :
+    chainOk (n' :: l) = chainOk (n :: l) := by
+  rw [chainOk_cons, chainOk_cons, seamOk_sameKind_left h]
+
+theorem Node.size_pos_of_norm : ∀ n : Node, n.norm = true → 0 < n.size
+  | .text s m, h => by
+    cases s with
+    | nil => simp [Node.norm] at h
+    | cons c s => simp
+  | .leaf .., _ => by simp
+  | .elem .., _ => by simp; omega
+
+def CutNormSpec (kids : List Node) : Prop :=
+  ∀ (f t : Nat) (c : List Node), fnormKids kids = true → chainOk kids = true →
+    fcutLoop kids f t = .ok c →
+    fnormKids c = true ∧ chainOk c = true ∧ (f = 0 → ∀ x, chainOk (x :: kids) = true → chainOk (x :: c) = true)
+
+theorem cutElem_norm (ty : TypeId) (a : Attrs) (m : Marks) (kids : List Node) (IH : CutNormSpec kids)
+    (f t : Nat) (c : Node) (hn : (Node.elem ty a m kids).norm = true)
+    (h : Node.cut (.elem ty a m kids) f t = .ok c) :
+    c.norm = true ∧ sameKind (.elem ty a m kids) c := by
+  rw [Node.cut] at h
+  split at h
+  · simp at h; subst h; exact ⟨hn, sameKind_refl _⟩
+  · split at h
+    · simp at h; subst h
+      exact ⟨by simp [Node.norm, fnormKids, chainOk], sameKind_elem _ _ _ _ _⟩
+    · cases hc : fcutLoop kids f t with
+      | error e => simp [hc, Except.map] at h
+      | ok c' =>
+        simp [hc, Except.map] at h
+        subst h
+        simp only [Node.norm, Bool.and_eq_true] at hn
+        have := IH f t c' hn.1 hn.2 hc
+        exact ⟨by simp [Node.norm, this.1, this.2.1], sameKind_elem _ _ _ _ _⟩
+
+theorem fcutLoop_norm : ∀ kids : List Node, CutNormSpec kids
+  | [], f, t, c, _, _, h => by
+    rw [fcutLoop] at h
+    split at h
+    · simp at h
+    · simp at h; subst h
+      exact ⟨rfl, rfl, fun _ x hx => hx⟩
+  | n :: ns, f, t, c, hn, hc, h => by
+    have IHns := fcutLoop_norm ns
+    have hcns := chainOk_tail hc
+    simp only [fnormKids, Bool.and_eq_true] at hn
+    by_cases ht0 : t = 0
+    · subst ht0
+      rw [fcutLoop_zero] at h
+      simp at h; subst h
+      exact ⟨rfl, rfl, fun _ x _ => by simp [chainOk]⟩
+    rw [fcutLoop] at h
+    simp only [if_neg ht0] at h
+    obtain ⟨sz, hsz⟩ : ∃ sz, sz = n.size := ⟨_, rfl⟩
+    rw [← hsz] at h
+    split at h
+    · rename_i hfsz
+      have h0 : f - sz = 0 := by omega
+      rw [h0] at h
+      -- common assembly
+      have asm : ∀ hd rest, hd.norm = true → sameKind n hd → fcutLoop ns 0 (t - sz) = .ok rest →
+          fnormKids (hd :: rest) = true ∧ chainOk (hd :: rest) = true ∧
+            (f = 0 → ∀ x, chainOk (x :: n :: ns) = true → chainOk (x :: hd :: rest) = true) := by
+        intro hd rest hdn hk hr
+        obtain ⟨r1, r2, r3⟩ := IHns 0 (t - sz) rest hn.2 hcns hr
+        have hch : chainOk (hd :: rest) = true := by
+          apply r3 rfl
+          rw [chainOk_cons_sameKind hk]; exact hc
+        refine ⟨by simp [fnormKids, hdn, r1], hch, fun _ x hx => ?_⟩
+        simp only [chainOk, Bool.and_eq_true] at hx ⊢
+        exact ⟨by rw [hk.1]; exact hx.1, hch⟩
+      split at h
+      · cases n with
+        | text s m =>
+          simp only at h
+          cases hct : cutText s f (min s.length t) with
+          | error e => simp [hct] at h
+          | ok s' =>
+            cases hr : fcutLoop ns 0 (t - sz) with
+            | error e => simp [hct, hr] at h
+            | ok rest =>
+              simp [hct, hr] at h
+              subst h
+              refine asm _ rest ?_ (sameKind_text _ _ _) hr
+              have := (cutText_ok hct).2
+              simp [Node.norm] at hn ⊢
+              exact this hn.1
+        | leaf ty a m =>
+          simp only at h
+          cases hr : fcutLoop ns 0 (t - sz) with
+          | error e => simp [hr] at h
+          | ok rest =>
+            simp [hr] at h
+            subst h
+            exact asm _ rest hn.1 (sameKind_refl _) hr
+        | elem ty a m kids =>
+          simp only at h
+          cases hct : Node.cut (.elem ty a m kids) (f - 1) (min (fsize kids) (t - 1)) with
+          | error e => simp [hct] at h
+          | ok hd =>
+            cases hr : fcutLoop ns 0 (t - sz) with
+            | error e => simp [hct, hr] at h
+            | ok rest =>
+              simp [hct, hr] at h
+              subst h
+              have := cutElem_norm ty a m kids (fcutLoop_norm kids) _ _ hd hn.1 hct
+              exact asm _ rest this.1 this.2 hr
+      · cases hr : fcutLoop ns 0 (t - sz) with
+        | error e => simp [hr] at h
+        | ok rest =>
+          simp [hr] at h
+          subst h
+          exact asm _ rest hn.1 (sameKind_refl _) hr
+    · rename_i hfsz
+      obtain ⟨r1, r2, _⟩ := IHns _ _ c hn.2 hcns h
+      refine ⟨r1, r2, fun hf0 => ?_⟩
+      have := Node.size_pos_of_norm n hn.1
+      omega
+
 theorem fcut_norm (kids c : List Node) (f t : Nat) (hn : fnorm kids = true)
     (h : fcut kids f t = .ok c) : fnorm c = true := by
-  sorry
+  unfold fcut at h
+  split at h
+  · simp at h; subst h; exact hn
+  · split at h
+    · simp at h; subst h; rfl
+    · simp only [fnorm, Bool.and_eq_true] at hn ⊢
+      have := fcutLoop_norm kids f t c hn.1 hn.2 h
+      exact ⟨this.1, this.2.1⟩
 
-/-- **Tokens of a slice**: exactly the tokens in the range. -/
+/-! ### Spine depths of a cut -/
+
+@[simp] theorem spineL_elem_cons (ty : TypeId) (a : Attrs) (m : Marks) (k rest : List Node) :
+    spineL (.elem ty a m k :: rest) = 1 + spineL k := by
+  conv => lhs; unfold spineL
+
+@[simp] theorem spineR_elem_single (ty : TypeId) (a : Attrs) (m : Marks) (k : List Node) :
+    spineR [.elem ty a m k] = 1 + spineR k := by
+  conv => lhs; unfold spineR
+
+theorem spineR_cons_ge (hd : Node) (rest : List Node) : spineR rest ≤ spineR (hd :: rest) := by
+  cases rest with
+  | nil => simp [spineR]
+  | cons b r =>
+    have : spineR (hd :: b :: r) = spineR (b :: r) := by
+      conv => lhs; unfold spineR
+      cases hd <;> rfl
+    omega
+
+def CutSpineSpec (kids : List Node) : Prop :=
+  ∀ (f t : Nat) (c : List Node), (f < t ∨ (f = 0 ∧ t = 0)) → t ≤ fsize kids →
+    fcutLoop kids f t = .ok c → depthAt kids f ≤ spineL c ∧ depthAt kids t ≤ spineR c
+
+theorem cutElem_spine (ty : TypeId) (a : Attrs) (m : Marks) (kids : List Node) (IH : CutSpineSpec kids)
+    (f2 t2 : Nat) (c : Node) (hle : f2 ≤ t2) (ht2 : t2 ≤ fsize kids)
+    (hdeg : f2 = t2 → f2 = 0 ∨ f2 = fsize kids)
+    (h : Node.cut (.elem ty a m kids) f2 t2 = .ok c) :
+    ∃ k', c = .elem ty a m k' ∧ depthAt kids f2 ≤ spineL k' ∧ depthAt kids t2 ≤ spineR k' := by
+  rw [Node.cut] at h
+  split at h
+  · rename_i h1
+    simp at h1 h
+    obtain ⟨rfl, rfl⟩ := h1
+    subst h
+    exact ⟨kids, rfl, by simp, by simp [depthAt_fsize]⟩
+  · split at h
+    · simp at h; subst h
+      have : f2 = t2 := by omega
+      subst this
+      rcases hdeg rfl with rfl | rfl
+      · exact ⟨[], rfl, by simp, by simp⟩
+      · exact ⟨[], rfl, by simp [depthAt_fsize], by simp [depthAt_fsize]⟩
+    · cases hc : fcutLoop kids f2 t2 with
+      | error e => simp [hc, Except.map] at h
+      | ok c' =>
+        simp [hc, Except.map] at h
+        subst h
+        have := IH f2 t2 c' (by omega) ht2 hc
+        exact ⟨c', rfl, this.1, this.2⟩
+
+theorem depthAt_nonelem_cons (n : Node) (ns : List Node) (p : Nat) (hp : p < n.size)
+    (hn : ∀ ty a m k, n ≠ .elem ty a m k) : depthAt (n :: ns) p = 0 := by
+  rw [depthAt_cons]
+  split
+  · rfl
+  · rw [if_neg (by omega)]
+    cases n with
+    | elem ty a m k => exact absurd rfl (hn ty a m k)
+    | _ => rfl
+
+theorem fcutLoop_spine : ∀ kids : List Node, CutSpineSpec kids
+  | [], f, t, c, hft, ht, h => by simp [depthAt]
+  | n :: ns, f, t, c, hft, ht, h => by
+    have IHns := fcutLoop_spine ns
+    by_cases ht0 : t = 0
+    · subst ht0
+      have : f = 0 := by omega
+      subst this; simp
+    have hft : f < t := by omega
+    rw [fcutLoop] at h
+    simp only [if_neg ht0] at h
+    simp only [fsize_cons] at ht
+    obtain ⟨sz, hsz⟩ : ∃ sz, sz = n.size := ⟨_, rfl⟩
+    rw [← hsz] at h
+    split at h
+    · rename_i hfsz
+      have h0 : f - sz = 0 := by omega
+      rw [h0] at h
+      -- right end, when `t` is at or beyond the end of the head node
+      have tailR : ∀ hd rest, fcutLoop ns 0 (t - sz) = .ok rest → sz ≤ t →
+          depthAt (n :: ns) t ≤ spineR (hd :: rest) := by
+        intro hd rest hr hle
+        have := (IHns 0 (t - sz) rest (by omega) (by omega) hr).2
+        rw [depthAt_skip n ns t (by omega), ← hsz]
+        exact Nat.le_trans this (spineR_cons_ge hd rest)
+      have tailNil : ∀ rest, fcutLoop ns 0 (t - sz) = .ok rest → t < sz → rest = [] := by
+        intro rest hr hlt
+        have : t - sz = 0 := by omega
+        rw [this, fcutLoop_zero] at hr
+        simp at hr; exact hr
+      split at h
+      · rename_i hcut
+        cases n with
+        | text s m =>
+          simp only at h
+          cases hct : cutText s f (min s.length t) with
+          | error e => simp [hct] at h
+          | ok s' =>
+            cases hr : fcutLoop ns 0 (t - sz) with
+            | error e => simp [hct, hr] at h
+            | ok rest =>
+              simp [hct, hr] at h
+              subst h
+              refine ⟨?_, ?_⟩
+              · rw [depthAt_nonelem_cons _ ns f (by omega) (by simp)]; omega
+              · by_cases hle : sz ≤ t
+                · exact tailR _ rest hr hle
+                · rw [depthAt_nonelem_cons _ ns t (by omega) (by simp)]; omega
+        | leaf ty a m =>
+          simp only at h
+          cases hr : fcutLoop ns 0 (t - sz) with
+          | error e => simp [hr] at h
+          | ok rest =>
+            simp [hr] at h
+            subst h
+            refine ⟨?_, ?_⟩
+            · rw [depthAt_nonelem_cons _ ns f (by omega) (by simp)]; omega
+            · by_cases hle : sz ≤ t
+              · exact tailR _ rest hr hle
+              · rw [depthAt_nonelem_cons _ ns t (by omega) (by simp)]; omega
+        | elem ty a m kids =>
+          simp only at h
+          cases hct : Node.cut (.elem ty a m kids) (f - 1) (min (fsize kids) (t - 1)) with
+          | error e => simp [hct] at h
+          | ok hd =>
+            cases hr : fcutLoop ns 0 (t - sz) with
+            | error e => simp [hct, hr] at h
+            | ok rest =>
+              simp [hct, hr] at h
+              subst h
+              simp at hsz
+              obtain ⟨k', rfl, hl, hrr⟩ := cutElem_spine ty a m kids (fcutLoop_spine kids) _ _ hd
+                (by omega) (by omega) (by omega) hct
+              refine ⟨?_, ?_⟩
+              · by_cases hf0 : f = 0
+                · subst hf0; simp
+                · rw [depthAt_elem_cons _ _ _ _ _ _ (by omega) (by omega)]
+                  simp; omega
+              · by_cases hle : sz ≤ t
+                · exact tailR _ rest hr hle
+                · have := tailNil rest hr (by omega)
+                  subst this
+                  rw [depthAt_elem_cons _ _ _ _ _ _ (by omega) (by omega)]
+                  have hm : min (fsize kids) (t - 1) = t - 1 := by omega
+                  rw [hm] at hrr
+                  simp; omega
+      · rename_i hcut
+        simp at hcut
+        cases hr : fcutLoop ns 0 (t - sz) with
+        | error e => simp [hr] at h
+        | ok rest =>
+          simp [hr] at h
+          subst h
+          have hf0 : f = 0 := by omega
+          subst hf0
+          exact ⟨by simp, tailR _ rest hr (by omega)⟩
+    · rename_i hfsz
+      have := IHns (f - sz) (t - sz) c (by omega) (by omega) h
+      rw [depthAt_skip n ns f (by omega), depthAt_skip n ns t (by omega), ← hsz]
+      exact this
+
+theorem fcut_spine (kids c : List Node) (f t : Nat) (hft : f < t) (ht : t ≤ fsize kids)
+    (h : fcut kids f t = .ok c) : depthAt kids f ≤ spineL c ∧ depthAt kids t ≤ spineR c := by
+  unfold fcut at h
+  split at h
+  · rename_i h1
+    simp at h1 h
+    obtain ⟨rfl, rfl⟩ := h1
+    simp [depthAt_fsize]
+  · rw [if_neg (by omega)] at h
+    exact fcutLoop_spine kids f t c (Or.inl hft) ht h
+
+/-! ### Slices -/
+
+theorem depthAt_append_pre : ∀ (pre rest : List Node) (f : Nat),
+    depthAt (pre ++ rest) (fsize pre + f) = depthAt rest f
+  | [], rest, f => by simp
+  | n :: p, rest, f => by
+    rw [List.cons_append, depthAt_skip _ _ _ (by simp; omega)]
+    have : fsize (n :: p) + f - n.size = fsize p + f := by simp; omega
+    rw [this]; exact depthAt_append_pre p rest f
+
+theorem alignedAt_append_pre : ∀ (pre rest : List Node) (f : Nat),
+    alignedAt (pre ++ rest) (fsize pre + f) = alignedAt rest f
+  | [], rest, f => by simp
+  | n :: p, rest, f => by
+    rw [List.cons_append, alignedAt_cons]
+    split
+    · rename_i h
+      have : f = 0 := by simp at h; omega
+      subst this; simp
+    · rw [if_pos (by simp; omega)]
+      have : fsize (n :: p) + f - n.size = fsize p + f := by simp; omega
+      rw [this]; exact alignedAt_append_pre p rest f
+
+/-- what `sliceScan`/`sliceHere` return for the range `f0 … t0` of `level` -/
+structure SliceRes (level : List Node) (f0 t0 : Nat) (s : Slice) : Prop where
+  toks : s.toks = ((ftoks level).drop f0).take (t0 - f0)
+  size : s.size = (t0 : Int) - f0
+  opens : ∃ sh : Nat, s.openStart + sh = depthAt level f0 ∧ s.openEnd + sh = depthAt level t0 ∧
+      (∀ k, f0 ≤ k → k ≤ t0 → (sh : Int) ≤ balance ((ftoks level).take k)) ∧
+      (∃ k, f0 ≤ k ∧ k ≤ t0 ∧ (sh : Int) = balance ((ftoks level).take k))
+  norm : fnorm level = true → fnorm s.content = true ∧ s.wf = true
+
+theorem sliceHere_spec (level : List Node) (f0 t0 : Nat) (s : Slice) (hft : f0 < t0)
+    (ht : t0 ≤ fsize level)
+    (hw : ∃ k, f0 ≤ k ∧ k ≤ t0 ∧ balance ((ftoks level).take k) = 0)
+    (h : sliceHere level f0 t0 = .ok s) : SliceRes level f0 t0 s := by
+  unfold sliceHere at h
+  cases hc : fcut level f0 t0 with
+  | error e => simp [hc] at h
+  | ok c =>
+    simp [hc] at h
+    subst h
+    have htk := fcut_toks level c f0 t0 hft ht hc
+    have hlen : (((ftoks level).drop f0).take (t0 - f0)).length = t0 - f0 := by
+      simp [ftoks_length]; omega
+    have hao := ancestorOpens_length level f0
+    have hsz : fsize c = depthAt level f0 + (t0 - f0) + depthAt level t0 := by
+      rw [← ftoks_length, htk]; simp [hao, ftoks_length]; omega
+    refine ⟨?_, ?_, ?_, ?_⟩
+    · simp only [Slice.toks, htk, hsz]
+      rw [List.append_assoc, List.drop_append_of_le_length (by omega), List.drop_of_length_le (by omega)]
+      have : depthAt level f0 + (t0 - f0) + depthAt level t0 - depthAt level f0 - depthAt level t0
+          = (((ftoks level).drop f0).take (t0 - f0)).length := by rw [hlen]; omega
+      rw [this]; simp
+    · simp only [Slice.size, hsz]; omega
+    · obtain ⟨k, hk1, hk2, hk3⟩ := hw
+      exact ⟨0, by simp, by simp, fun k _ _ => by simpa using balance_prefix_nonneg level k,
+        k, hk1, hk2, by simp [hk3]⟩
+    · intro hn
+      have hs := fcut_spine level c f0 t0 hft ht hc
+      exact ⟨fcut_norm level c f0 t0 hn hc, by simp [Slice.wf, hs.1, hs.2]⟩
+
+theorem balance_take_pre (pre rest : List Node) (k : Nat) :
+    balance ((ftoks (pre ++ rest)).take (fsize pre + k)) = balance ((ftoks rest).take k) := by
+  rw [ftoks_append, List.take_append, List.take_of_length_le (by rw [ftoks_length]; omega),
+    ftoks_length, balance_append, balance_ftoks]
+  have : fsize pre + k - fsize pre = k := by omega
+  rw [this]; simp
+
+theorem balance_take_elem (ty : TypeId) (a : Attrs) (m : Marks) (kids ns : List Node) (j : Nat)
+    (h1 : 1 ≤ j) (h2 : j ≤ 1 + fsize kids) :
+    balance ((ftoks (.elem ty a m kids :: ns)).take j) = 1 + balance ((ftoks kids).take (j - 1)) := by
+  obtain ⟨j', rfl⟩ : ∃ j', j = j' + 1 := ⟨j - 1, by omega⟩
+  simp only [ftoks_cons, Node.toks_elem, List.cons_append, List.take_succ_cons, balance_cons,
+    List.append_assoc]
+  rw [List.take_append_of_le_length (by rw [ftoks_length]; omega)]
+  simp [Tok.delta]
+
+theorem sliceRes_lift (pre : List Node) (ty : TypeId) (a : Attrs) (m : Marks) (kids ns : List Node)
+    (f t : Nat) (s : Slice) (hf : 0 < f) (hft : f < t) (ht : t < 2 + fsize kids)
+    (h : SliceRes kids (f - 1) (t - 1) s) :
+    SliceRes (pre ++ .elem ty a m kids :: ns) (fsize pre + f) (fsize pre + t) s := by
+  obtain ⟨h1, h2, h3, h4⟩ := h
+  have hK := ftoks_length kids
+  refine ⟨?_, ?_, ?_, ?_⟩
+  · rw [h1, ftoks_append, List.drop_append, List.drop_eq_nil_of_le (as := ftoks pre) (by rw [ftoks_length]; omega),
+      ftoks_length]
+    have e1 : fsize pre + f - fsize pre = f := by omega
+    have e2 : fsize pre + t - (fsize pre + f) = t - f := by omega
+    have e3 : t - 1 - (f - 1) = t - f := by omega
+    rw [e1, e2, e3]
+    obtain ⟨f', rfl⟩ : ∃ f', f = f' + 1 := ⟨f - 1, by omega⟩
+    simp only [ftoks_cons, Node.toks_elem, List.cons_append, List.drop_succ_cons, List.nil_append,
+      List.append_assoc, Nat.add_sub_cancel]
+    rw [List.drop_append_of_le_length (by omega), List.take_append_of_le_length (by simp [hK]; omega)]
+  · rw [h2]; omega
+  · obtain ⟨sh, a1, a2, a3, k, b1, b2, b3⟩ := h3
+    refine ⟨sh + 1, ?_, ?_, ?_, ?_⟩
+    · rw [depthAt_append_pre, depthAt_elem_cons _ _ _ _ _ _ hf (by omega)]; omega
+    · rw [depthAt_append_pre, depthAt_elem_cons _ _ _ _ _ _ (by omega) (by omega)]; omega
+    · intro k hk1 hk2
+      obtain ⟨j, rfl⟩ : ∃ j, k = fsize pre + j := ⟨k - fsize pre, by omega⟩
+      rw [balance_take_pre, balance_take_elem _ _ _ _ _ _ (by omega) (by omega)]
+      have := a3 (j - 1) (by omega) (by omega)
+      push_cast; omega
+    · refine ⟨fsize pre + (k + 1), by omega, by omega, ?_⟩
+      rw [balance_take_pre, balance_take_elem _ _ _ _ _ _ (by omega) (by omega)]
+      simp at b3 ⊢; omega
+  · intro hn
+    apply h4
+    simp only [fnorm, Bool.and_eq_true] at hn
+    have := hn.1
+    rw [fnormKids_append] at this
+    simp only [fnormKids, Node.norm, Bool.and_eq_true] at this
+    simp [fnorm, this.2.1.1, this.2.1.2]
+
+theorem sliceScan_cons (level : List Node) (f0 t0 : Nat) (n : Node) (ns : List Node) (f t : Nat) :
+    sliceScan level f0 t0 (n :: ns) f t =
+      if f = 0 then sliceHere level f0 t0
+      else if n.size ≤ f then sliceScan level f0 t0 ns (f - n.size) (t - n.size)
+      else match n with
+        | .elem _ _ _ kids =>
+          if t < n.size then sliceScan kids (f - 1) (t - 1) kids (f - 1) (t - 1)
+          else sliceHere level f0 t0
+        | _ => sliceHere level f0 t0 := by
+  conv => lhs; unfold sliceScan
+  split
+  · rfl
+  · split
+    · rfl
+    · cases n <;> rfl
+
+theorem sliceScan_spec : ∀ (rest level : List Node) (f0 t0 f t : Nat) (pre : List Node) (s : Slice),
+    level = pre ++ rest → f0 = fsize pre + f → t0 = fsize pre + t → f < t → t ≤ fsize rest →
+    sliceScan level f0 t0 rest f t = .ok s → SliceRes level f0 t0 s
+  | [], level, f0, t0, f, t, pre, s, _, _, _, hft, ht, _ => by simp at ht; omega
+  | n :: ns, level, f0, t0, f, t, pre, s, hl, hf0, ht0, hft, ht, h => by
+    simp only [fsize_cons] at ht
+    have hlsz : fsize level = fsize pre + (n.size + fsize ns) := by rw [hl, fsize_append]; simp
+    have here : ∀ k, f ≤ k → k ≤ t → balance ((ftoks (n :: ns)).take k) = 0 →
+        sliceHere level f0 t0 = .ok s → SliceRes level f0 t0 s := by
+      intro k hk1 hk2 hk3 hh
+      refine sliceHere_spec level f0 t0 s (by omega) (by omega) ⟨fsize pre + k, by omega, by omega, ?_⟩ hh
+      rw [hl, balance_take_pre]; exact hk3
+    rw [sliceScan_cons] at h
+    split at h
+    · rename_i hfz
+      subst hfz
+      exact here 0 (by omega) (by omega) (by simp) h
+    · rename_i hfz
+      split at h
+      · rename_i hsz
+        refine sliceScan_spec ns level f0 t0 (f - n.size) (t - n.size) (pre ++ [n]) s ?_ ?_ ?_
+          (by omega) (by omega) h
+        · rw [hl]; simp
+        · rw [fsize_append]; simp; omega
+        · rw [fsize_append]; simp; omega
+      · rename_i hsz
+        have hdb := depthAt_balance (n :: ns) f (by simp; omega)
+        cases n with
+        | text s' m =>
+          refine here f (by omega) (by omega) ?_ h
+          rw [← hdb, depthAt_nonelem_cons _ ns f (by omega) (by simp)]; rfl
+        | leaf ty a m =>
+          refine here f (by omega) (by omega) ?_ h
+          rw [← hdb, depthAt_nonelem_cons _ ns f (by omega) (by simp)]; rfl
+        | elem ty a m kids =>
+          simp only at h
+          simp at hsz
+          split at h
+          · rename_i htsz
+            simp at htsz
+            have := sliceScan_spec kids kids (f - 1) (t - 1) (f - 1) (t - 1) [] s (by simp) (by simp)
+              (by simp) (by omega) (by omega) h
+            rw [hl, hf0, ht0]
+            exact sliceRes_lift pre ty a m kids ns f t s (by omega) hft htsz this
+          · rename_i htsz
+            simp at htsz
+            refine here (2 + fsize kids) (by omega) (by omega) ?_ h
+            rw [ftoks_cons, List.take_append_of_le_length (by simp [ftoks_length]; omega),
+              List.take_of_length_le (by simp [ftoks_length]; omega)]
+            exact Node.balance_toks _
+
+theorem sliceKids_spec (kids : List Node) (f t : Nat) (s : Slice) (hft : f < t) (ht : t ≤ fsize kids)
+    (h : sliceKids kids f t = .ok s) : SliceRes kids f t s := by
+  unfold sliceKids at h
+  rw [if_neg (by omega)] at h
+  split at h
+  · simp at h
+  · exact sliceScan_spec kids kids f t f t [] s (by simp) (by simp) (by simp) hft ht h
+
 theorem sliceKids_toks (kids : List Node) (f t : Nat) (s : Slice) (hft : f ≤ t) (ht : t ≤ fsize kids)
     (h : sliceKids kids f t = .ok s) :
     s.toks = ((ftoks kids).drop f).take (t - f) := by
-  sorry
+  by_cases he : f = t
+  · subst he
+    simp [sliceKids] at h; subst h
+    simp [Slice.toks, Slice.empty]
+  · exact (sliceKids_spec kids f t s (by omega) ht h).toks
 
-/-- … its size is the width of the range … -/
 theorem sliceKids_size (kids : List Node) (f t : Nat) (s : Slice) (hft : f ≤ t) (ht : t ≤ fsize kids)
     (h : sliceKids kids f t = .ok s) : s.size = (t : Int) - f := by
-  sorry
+  by_cases he : f = t
+  · subst he
+    simp [sliceKids] at h; subst h
+    simp [Slice.size, Slice.empty]
+  · exact (sliceKids_spec kids f t s (by omega) ht h).size
 
-/-- … and its open depths are the depths of the two ends relative to the deepest node containing
-    both: `sh` is the least nesting depth reached anywhere in the range. -/
 theorem sliceKids_open (kids : List Node) (f t : Nat) (s : Slice) (hft : f < t) (ht : t ≤ fsize kids)
     (h : sliceKids kids f t = .ok s) :
     ∃ sh : Nat, s.openStart + sh = depthAt kids f ∧ s.openEnd + sh = depthAt kids t ∧
       (∀ k, f ≤ k → k ≤ t → (sh : Int) ≤ balance ((ftoks kids).take k)) ∧
-      (∃ k, f ≤ k ∧ k ≤ t ∧ (sh : Int) = balance ((ftoks kids).take k)) := by
-  sorry
+      (∃ k, f ≤ k ∧ k ≤ t ∧ (sh : Int) = balance ((ftoks kids).take k)) :=
+  (sliceKids_spec kids f t s hft ht h).opens
 
-/-- slicing a normal-form document gives a normal-form, well-formed slice -/
 theorem sliceKids_norm (kids : List Node) (f t : Nat) (s : Slice) (hn : fnorm kids = true)
     (h : sliceKids kids f t = .ok s) : fnorm s.content = true ∧ s.wf = true := by
-  sorry
+  by_cases he : f = t
+  · subst he
+    simp [sliceKids] at h; subst h
+    simp [Slice.empty, fnorm, fnormKids, chainOk, Slice.wf]
+  · have h' := h
+    unfold sliceKids at h'
+    rw [if_neg he] at h'
+    split at h'
+    · simp at h'
+    · rename_i hg
+      simp [inRange] at hg
+      exact (sliceKids_spec kids f t s (by omega) (by omega) h).norm hn
 
-/-- slicing at pair-aligned, in-range offsets succeeds -/
+theorem sliceHere_total (level : List Node) (f0 t0 : Nat) (hft : f0 < t0) (ht : t0 ≤ fsize level)
+    (hf : alignedAt level f0 = true) (hta : alignedAt level t0 = true) :
+    ∃ s, sliceHere level f0 t0 = .ok s := by
+  have : ∃ c, fcut level f0 t0 = .ok c := by
+    unfold fcut
+    split
+    · exact ⟨_, rfl⟩
+    · rw [if_neg (by omega)]
+      exact fcutLoop_total level f0 t0 (Or.inl hft) ht hf hta
+  obtain ⟨c, hc⟩ := this
+  unfold sliceHere
+  rw [hc]; exact ⟨_, rfl⟩
+
+theorem sliceScan_total : ∀ (rest level : List Node) (f0 t0 f t : Nat) (pre : List Node),
+    level = pre ++ rest → f0 = fsize pre + f → t0 = fsize pre + t → f < t → t ≤ fsize rest →
+    alignedAt level f0 = true → alignedAt level t0 = true →
+    ∃ s, sliceScan level f0 t0 rest f t = .ok s
+  | [], level, f0, t0, f, t, pre, _, _, _, hft, ht, _, _ => by simp at ht; omega
+  | n :: ns, level, f0, t0, f, t, pre, hl, hf0, ht0, hft, ht, haf, hat => by
+    simp only [fsize_cons] at ht
+    have hlsz : fsize level = fsize pre + (n.size + fsize ns) := by rw [hl, fsize_append]; simp
+    have here := sliceHere_total level f0 t0 (by omega) (by omega) haf hat
+    rw [sliceScan_cons]
+    split
+    · exact here
+    · rename_i hfz
+      split
+      · rename_i hsz
+        refine sliceScan_total ns level f0 t0 (f - n.size) (t - n.size) (pre ++ [n]) ?_ ?_ ?_
+          (by omega) (by omega) haf hat
+        · rw [hl]; simp
+        · rw [fsize_append]; simp; omega
+        · rw [fsize_append]; simp; omega
+      · rename_i hsz
+        cases n with
+        | text s' m => exact here
+        | leaf ty a m => exact here
+        | elem ty a m kids =>
+          simp only
+          simp at hsz
+          split
+          · rename_i htsz
+            simp at htsz
+            rw [hl, hf0, alignedAt_append_pre, alignedAt_cons, if_neg hfz, if_neg (by simp; omega)] at haf
+            rw [hl, ht0, alignedAt_append_pre, alignedAt_cons, if_neg (by omega), if_neg (by simp; omega)] at hat
+            exact sliceScan_total kids kids (f - 1) (t - 1) (f - 1) (t - 1) [] (by simp) (by simp)
+              (by simp) (by omega) (by omega) haf hat
+          · exact here
+
+set_option linter.unusedVariables false in
 theorem sliceKids_total (kids : List Node) (f t : Nat) (hft : f ≤ t) (ht : t ≤ fsize kids)
     (hf : alignedAt kids f = true) (hta : alignedAt kids t = true) (hn : fnorm kids = true) :
     ∃ s, sliceKids kids f t = .ok s := by
-  sorry
-
-/-- `from_array` produces a normal form when every piece is in normal form -/
-theorem fromArray_norm (l : List Node) (h : fnormKids l = true) : fnorm (fromArray l) = true := by
-  sorry
-
-/-- `Fragment.append` preserves normal form -/
-theorem fappend_norm (a b : List Node) (ha : fnorm a = true) (hb : fnorm b = true) :
-    fnorm (fappend a b) = true := by
-  sorry
+  unfold sliceKids
+  split
+  · exact ⟨_, rfl⟩
+  · rename_i he
+    rw [if_neg (by simp [inRange]; omega)]
+    exact sliceScan_total kids kids f t f t [] (by simp) (by simp) (by simp) (by omega) ht hf hta
 
 end PM
+
